@@ -3,7 +3,7 @@ cd /verif
 for d in seeded/*/; do
   k=$(basename $d); prop=${k%%-*}; var=${k#*-}
   tag=""; v=$var
-  case $var in r2*) tag="--tag r2"; v=${var#r2};; r3*) tag="--tag r3"; v=${var#r3};; esac
+  case $var in r2*) tag="--tag r2"; v=${var#r2};; r3*) tag="--tag r3"; v=${var#r3};; r4*) tag="--tag r4"; v=${var#r4};; esac
   python3 seedtest.py $prop $v $tag --base /nonexistent --detect-only 2>&1 | grep -E "^\[.*exit" | cut -c1-120
 done
 ./refresh_evidence.sh
